@@ -23,6 +23,7 @@ type WOp struct {
 	Opt     world.RouteOpt
 	Bad     string   // "" | pattern | nil | method
 	BadPat  string   // malformed pattern text
+	Same    bool     // handleroute: pass the very *Route registered under (method, pattern), if there is one, instead of a new one
 	Methods []string // truncate
 }
 
@@ -36,6 +37,9 @@ func (o WOp) String() string {
 	s := fmt.Sprintf("%s(%s,#%d tag=%d", o.Kind, o.Method, o.Pat, o.Tag)
 	if o.Opt.TS != 0 || len(o.Opt.MW) > 0 {
 		s += fmt.Sprintf(" ts=%d mw=%v", o.Opt.TS, o.Opt.MW)
+	}
+	if o.Same {
+		s += " registered-object"
 	}
 	return s + ")"
 }
@@ -151,7 +155,7 @@ func genWOpHint(s sim.Source, pool []*model.Pattern, methods []string, tag int, 
 		case present && r < 15:
 			k = 13 // delete
 		case present:
-			k = 0 // handle (exists)
+			k = sim.Pick(s, "existsvia", []int{0, 7}) // handle / handleroute (exists)
 		case r < 15:
 			k = 0 // handle
 		case r < 17:
@@ -168,6 +172,7 @@ func genWOpHint(s sim.Source, pool []*model.Pattern, methods []string, tag int, 
 		op.Kind = "handle"
 	case k < 9:
 		op.Kind = "handleroute"
+		op.Same = s.Intn("sameobject", 3) == 2
 	case k < 12:
 		op.Kind = "update"
 	case k < 13:
@@ -303,6 +308,14 @@ func applyFox(w *world.World, wr world.Writer, pool []*model.Pattern, op WOp) WO
 		var nr *fox.Route
 		if op.Bad != "nil" {
 			nr, err = w.R.NewRoute(pattern, h, opts...)
+		}
+		if op.Same && op.Kind == "handleroute" && err == nil && nr != nil {
+			// the object that is already registered there, handed in again: a duplicate like any other
+			if rd, ok := wr.(interface{ Route(method, pattern string) *fox.Route }); ok {
+				if reg := rd.Route(op.Method, pattern); reg != nil {
+					nr = reg
+				}
+			}
 		}
 		if err == nil {
 			if op.Kind == "handleroute" {
